@@ -144,16 +144,24 @@ class Recorder:
         self.evs.append(ev)
         return ev
 
-    def rec_setcfg(self, d, extra, src, prefill=False):
+    def rec_setcfg(self, d, extra, src, prefill=False, form=None, file=None):
+        """extra: the caller's blocks (recorded as such); form: the kind of Iterable[bytes] they are handed over in;
+        file: an existing Bf3File to update (histories), else a fresh one."""
         tid = self._new(d, extra, src)
-        f = self.Bf3File({"k": "v"}, [self.mk_comp({0xC3: b"\x02"}, b"fw")] if prefill else [])
-        ev = {"tid": tid, "op": "setcfg", "dict": enc_dict(d), "extra": [B(x) for x in extra], "k": "ok", "cls": "",
-              "desc": [], "blob": [], "alen": 0, "enc": 0}
+        f = file if file is not None else \
+            self.Bf3File({"k": "v"}, [self.mk_comp({0xC3: b"\x02"}, b"fw")] if prefill else [])
+        blocks = [bytes(x) for x in (extra or [])]
+        if form is None:
+            form = "omitted" if not blocks else FORMS[tid % len(FORMS)]
+        if form == "keysview" and len(set(blocks)) != len(blocks):
+            form = "generator"
+        ev = {"tid": tid, "op": "setcfg", "dict": enc_dict(d), "extra": [B(x) for x in blocks], "k": "ok", "cls": "",
+              "desc": [], "blob": [], "alen": 0, "enc": 0, "form": form}
         try:
-            if extra is None or len(extra) == 0:
+            if form == "omitted":
                 f.set_config(dict(d))
             else:
-                f.set_config(dict(d), [bytes(x) for x in extra])
+                f.set_config(dict(d), as_iterable(blocks, form))
             c = f.components[-1]
             ev.update(desc=[[int(t), B(v)] for t, v in c.description.items()], blob=B(c.blob), alen=int(c.actual_len),
                       enc=1 if c.encrypt_by_session_key else 0)
@@ -162,6 +170,73 @@ class Recorder:
         ev["_cost"] = 1 + sum(len(c or b"") for c in d.values()) // 64
         self.evs.append(ev)
         return ev
+
+
+# every way of handing over Iterable[bytes] (the signature of set_config), re-iterable and one-shot
+FORMS = ["list", "tuple", "iterator", "generator", "map", "iterable-class", "keysview"]
+
+
+class _Blocks:
+    """an Iterable that is neither a sequence nor sized; each iteration starts afresh"""
+
+    def __init__(self, blocks):
+        self._b = list(blocks)
+
+    def __iter__(self):
+        return iter(list(self._b))
+
+
+def as_iterable(blocks, form):
+    if form == "list":
+        return list(blocks)
+    if form == "tuple":
+        return tuple(blocks)
+    if form == "iterator":
+        return iter(list(blocks))
+    if form == "generator":
+        return (b for b in list(blocks))
+    if form == "map":
+        return map(bytes, list(blocks))
+    if form == "iterable-class":
+        return _Blocks(blocks)
+    if form == "keysview":
+        return dict.fromkeys(blocks).keys()
+    raise ValueError(form)
+
+
+def histories(rec, r, n):
+    """Single-process histories: the same / an equal dictionary converted several times, with and without extra blocks,
+    on the same and on different Bf3File objects, the list returned by conf_dict_to_tlv mutated by the caller in
+    between.  Every call is one event; TLC judges each against its own input (the functions are pure by the property)."""
+    n0 = len(rec.evs)
+    for j in range(n):
+        d = random_dict(r) if j % 3 else {}
+        if j % 5 == 1:
+            d = {(0x0620, 0x01): b"\x00\x01\x00\x00", (0x0620, 0x06): b"Name", (0x0101, 5): None, (0x0300, None): None}
+        src = ("history", j)
+        equal = dict(reversed(list(d.items())))                   # equal dictionary, other object, other insertion order
+        x1, x2 = _extra(r), _extra(r)
+        rec.rec_tlv(d, src)
+        try:                                                      # the caller owns the returned list: mutate a fresh result
+            got = rec.tlv(dict(d))
+            got.append(b"\x02\xAA\xBB")
+            got.insert(0, b"")
+            if len(got) > 2:
+                got[1] = b"\xff" + got[1]
+        except Exception:                                         # noqa: BLE001  (the recorded call above shows it)
+            pass
+        rec.rec_tlv(d, src)
+        rec.rec_tlv(equal, src)
+        f = rec.Bf3File({}, [])
+        rec.rec_setcfg(d, x1, src, file=f, form=FORMS[j % len(FORMS)])
+        rec.rec_setcfg(d, [], src, file=f)                        # same file, same dictionary, now without extras
+        rec.rec_setcfg(equal, x2, src, file=f, form=FORMS[(j + 3) % len(FORMS)])
+        rec.rec_setcfg(equal, [], src)                            # other file
+        rec.rec_tlv(d, src)
+        rec.rec_setcfg(d, x1, src, form="list")
+        rec.rec_setcfg(d, x1, src, form="generator")
+        rec.rec_setcfg(d, [], src, file=f)
+    return len(rec.evs) - n0
 
 
 def _extra(r):
@@ -254,6 +329,10 @@ def run(tier):
             d = random_dict(r)
             rec.rec_tlv(d, ("C->S", None))
             rec.rec_setcfg(d, _extra(r) if r.random() < 0.5 else [], ("C->S", None), prefill=r.random() < 0.3)
+        n_hist = histories(rec, r, 400 if thorough else 60)
+        for form in FORMS:                                           # every form at least once on a fixed dictionary
+            rec.rec_setcfg({(0x0101, 1): b"abc", (0x0102, None): None}, [b"\x02\xAA\xBB", b"\x01\xCC\xDD\x07\x01\x99"],
+                           ("forms", form), form=form)
         n_real = len(rec.evs)
         # ---------------- binding self-test: corrupted canaries must be rejected
         good = next(e for e in rec.evs if e["op"] == "setcfg" and e["k"] == "ok" and len(e["blob"]) > 12
@@ -300,7 +379,8 @@ def run(tier):
             small = {k: v for k, v in ev.items() if not k.startswith("_")}
             rep.violation(key, "%s on dictionary %s: specification verdict '%s'%s" % (
                 "conf_dict_to_tlv" if ev["op"] == "tlv" else "Bf3File.set_config",
-                _show(d), clause, (" (raised %s)" % ev["cls"]) if ev["k"] == "raise" else ""),
+                _show(d) + ((", extra blocks as %s" % ev["form"]) if ev.get("form") not in (None, "omitted") else ""), clause,
+                (" (raised %s)" % ev["cls"]) if ev["k"] == "raise" else "") + (" [history %s]" % (src[1],) if src[0] == "history" else ""),
                 {"event": small, "source": src[0], "tlc_case": src[1]})
         if not any(t in rejd for t in cex_tids):
             rep.cov["parts"]["selftest-model"]["counterexample on the real code"] = "accepted (defect not present in the code)"
@@ -312,7 +392,8 @@ def run(tier):
                        {"cases": len(chosen), "cases_length_le_3_available": len(cases3), "cases_length_4_sampled": len(cases4),
                         "events": n_s2c, "all_length_le_3": thorough})
         rep.add_trace("Trace_ConfigTlv (real conf_dict_to_tlv / set_config bytes judged by the declarative validity)", st,
-                      n_real, extra={"s2c_events": n_s2c, "random_dict_events": n_real - n_s2c, "canaries": len(canaries),
+                      n_real, extra={"s2c_events": n_s2c, "random_dict_events": n_real - n_s2c - n_hist - len(FORMS), "history_events": n_hist,
+                                     "extra_block_forms": FORMS, "canaries": len(canaries),
                                      "rejected_real_events": len([t for t in rejd if t not in canaries])})
         for e in (rec.evs[0], rec.evs[n_s2c + 1], rec.evs[1]):
             rep.sample({k: v for k, v in e.items() if not k.startswith("_")})
